@@ -24,11 +24,11 @@ var ptrVarSpec = guardSpec{pkg: pkgVars, structName: "PtrVar", mutex: "mutex", f
 func init() {
 	register(&core.Spec{
 		ID: "C39",
-		Explanation: "Decides a necessary condition of C39's 'no data races or fatal errors' clause for the interpreter's own shared state: (EVALER-LOCK) every field of Evaler declared under its mutex (global, builtin, deprecations, modules, valuePrefix, notifyBgJobSuccess, numBgJobs) is read only with mu held (read or write) and written only with the write lock held, on every path of every function in the program, a map loaded from such a field is not used after the lock is released, the lock is never re-acquired while held, released while not held, or still held at a return without a deferred unlock; (PTRVAR-LOCK) the pointer inside vars.PtrVar is dereferenced only under the PtrVar's mutex (write lock for ScanToGo). The field list is derived from the struct declaration (fields after mu), not hard-coded. It does not decide races on other shared state nor serialisability of results.",
+		Explanation: "Decides a necessary condition of C39's 'no data races or fatal errors' clause for the interpreter's own shared state: (EVALER-LOCK) every field of Evaler declared under its mutex (global, builtin, deprecations, modules, valuePrefix, notifyBgJobSuccess, numBgJobs) is read only with mu held (read or write) and written only with the write lock held, on every path of every function in the program, a map loaded from such a field is not used after the lock is released, the lock is never re-acquired while held, released while not held, or still held at a return without a deferred unlock; (PTRVAR-LOCK) the pointer inside vars.PtrVar is dereferenced only under the PtrVar's mutex (write lock for ScanToGo). The field list is derived from the struct declaration (fields after mu), not hard-coded. (FORK-SHARED) memory reached through a pointer field of Frame that Fork copies unchanged (today: defers) is written only with a mutex held on every path - the forms of a pipeline run on forks of one frame. It does not decide races on other shared state nor serialisability of results.",
 		NotCovered:  "races on state outside Evaler/PtrVar (e.g. Ns slots written by closures running in parallel, which Elvish leaves to the script), serialisability of evaluation results",
-		Rules:       []string{"EVALER-LOCK: lockset with boolean-correlated path sensitivity over all accesses to Evaler's guarded fields", "PTRVAR-LOCK: lockset for PtrVar.ptr under PtrVar.mutex", "GUARDED-SET: the guarded field set equals the fields declared after the mutex in the struct", "RMW-ATOMIC: a guarded field is not written with a value computed from a read of it made in an earlier critical section", "RLOCK-WRITE: contradiction rule over every struct with an RWMutex: no field of the struct is written while only its read lock is held"},
+		Rules:       []string{"EVALER-LOCK: lockset with boolean-correlated path sensitivity over all accesses to Evaler's guarded fields", "PTRVAR-LOCK: lockset for PtrVar.ptr under PtrVar.mutex", "GUARDED-SET: the guarded field set equals the fields declared after the mutex in the struct", "RMW-ATOMIC: a guarded field is not written with a value computed from a read of it made in an earlier critical section", "RLOCK-WRITE: contradiction rule over every struct with an RWMutex: no field of the struct is written while only its read lock is held", "FORK-SHARED: memory reached through a pointer field of Frame that Fork shares (defers) is written only with a mutex held on every path"},
 		Run:         runC39,
-		MinCounts:   map[string]int{"EVALER-LOCK": 25, "PTRVAR-LOCK": 3, "RLOCK-WRITE": 5, "RMW-ATOMIC": 3},
+		MinCounts:   map[string]int{"EVALER-LOCK": 25, "PTRVAR-LOCK": 3, "RLOCK-WRITE": 5, "RMW-ATOMIC": 3, "FORK-SHARED": 1},
 		Trusted:     trustedBase,
 		Controls: []core.Control{
 			{Name: "eval-releases-lock-between-read-and-install", Rule: "RMW-ATOMIC", File: "pkg/eval/eval.go", Old: "\tif defaultGlobal {\n\t\tev.global = newLocal\n\t\tev.mu.Unlock()\n\t}", New: "\tif defaultGlobal {\n\t\tev.mu.Unlock()\n\t\tev.mu.Lock()\n\t\tev.global = newLocal\n\t\tev.mu.Unlock()\n\t}", Fire: true, Want: "Evaler.global", Quick: true, Patterns: []string{"./pkg/eval"}},
@@ -39,6 +39,7 @@ func init() {
 			{Name: "eval-reads-global-after-unlock", Rule: "EVALER-LOCK", File: "pkg/eval/eval.go", Old: "\t} else {\n\t\tev.mu.Unlock()\n\t}\n\n\top, _, err := compile(b.static(), cfg.Global.static(), nil, tree, errFile)", New: "\t} else {\n\t\tev.mu.Unlock()\n\t}\n\t_ = ev.global\n\n\top, _, err := compile(b.static(), cfg.Global.static(), nil, tree, errFile)", Fire: true, Want: "Eval", Patterns: []string{"./pkg/eval"}},
 			{Name: "eval-error-path-keeps-lock", Rule: "EVALER-LOCK", File: "pkg/eval/eval.go", Old: "\tif err != nil {\n\t\tif defaultGlobal {\n\t\t\tev.mu.Unlock()\n\t\t}\n\t\treturn err\n\t}", New: "\tif err != nil {\n\t\treturn err\n\t}", Fire: true, Want: "returns holding", Patterns: []string{"./pkg/eval"}},
 			{Name: "write-under-read-lock", Rule: "EVALER-LOCK", File: "pkg/eval/eval.go", Old: "func (ev *Evaler) addNumBgJobs(delta int) {\n\tev.mu.Lock()\n\tdefer ev.mu.Unlock()", New: "func (ev *Evaler) addNumBgJobs(delta int) {\n\tev.mu.RLock()\n\tdefer ev.mu.RUnlock()", Fire: true, Want: "addNumBgJobs", Patterns: []string{"./pkg/eval"}},
+			{Name: "revert-fix-defers-unlocked", Rule: "FORK-SHARED", File: "pkg/eval/frame.go", Old: "\tfm.defers.mu.Lock()\n\tdefer fm.defers.mu.Unlock()\n\tfm.defers.fns = append(fm.defers.fns, f)", New: "\tfm.defers.fns = append(fm.defers.fns, f)", Fire: true, Want: "addDefer", Patterns: []string{"./pkg/eval"}},
 			{Name: "ptrvar-set-under-read-lock", Rule: "PTRVAR-LOCK", File: "pkg/eval/vars/ptr.go", Old: "\tv.mutex.Lock()\n\tdefer v.mutex.Unlock()\n\tif val == nil {", New: "\tv.mutex.RLock()\n\tdefer v.mutex.RUnlock()\n\tif val == nil {", Fire: true, Patterns: []string{"./pkg/eval"}},
 			{Name: "envlist-get-writes-cache-under-rlock", Rule: "RLOCK-WRITE", File: "pkg/eval/vars/env_list.go", Old: "\tenvli.Lock()\n\tdefer envli.Unlock()\n\n\tvalue := os.Getenv", New: "\tenvli.RLock()\n\tdefer envli.RUnlock()\n\n\tvalue := os.Getenv", Fire: true, Patterns: []string{"./pkg/eval"}},
 			{Name: "benign-rlock-for-pure-read", Rule: "EVALER-LOCK", File: "pkg/eval/eval.go", Old: "func (ev *Evaler) registerDeprecation(d deprecation) bool {\n\tev.mu.Lock()\n\tdefer ev.mu.Unlock()", New: "func (ev *Evaler) registerDeprecation(d deprecation) bool {\n\tev.mu.Lock()\n\tdefer func() { ev.mu.Unlock() }()", Fire: false, Patterns: []string{"./pkg/eval"}},
@@ -51,12 +52,14 @@ func init() {
 		NotCovered:  "ordering of events from concurrent producers, liveness, behaviour of the callbacks",
 		Rules:       []string{"FULL-LOCK: lockset on loop.redrawFull + set-before-send in Redraw", "NONBLOCK: non-blocking select sends on buffered channels", "FINAL-ONCE: exactly one final redraw before each return of Run; no go statements in Run's call tree", "REDRAW-AFTER-WAKE: after the select in Run wakes, a redraw callback runs before the next wait"},
 		Patterns:    []string{"./pkg/cli"},
-		Run:         runC32,
-		MinCounts:   map[string]int{"FULL-LOCK": 4, "NONBLOCK": 4, "FINAL-ONCE": 3, "REDRAW-AFTER-WAKE": 1},
+		Run:         func(p *core.Program, r *core.Report) { runC32(p, r); runInputFIFO(p, r) },
+		MinCounts:   map[string]int{"FULL-LOCK": 4, "NONBLOCK": 4, "FINAL-ONCE": 3, "REDRAW-AFTER-WAKE": 1, "INPUT-FIFO": 1},
 		Trusted:     trustedBase,
 		Controls: []core.Control{
 			{Name: "drain-request-after-full-redraw", Rule: "REDRAW-AFTER-WAKE", File: "pkg/cli/loop.go", Old: "\t\tlp.redrawCb(flag)\n\t\tselect {\n\t\tcase event := <-lp.inputCh:", New: "\t\tlp.redrawCb(flag)\n\t\tif flag&fullRedraw != 0 {\n\t\t\tselect {\n\t\t\tcase <-lp.redrawCh:\n\t\t\tdefault:\n\t\t\t}\n\t\t}\n\t\tselect {\n\t\tcase event := <-lp.inputCh:", Fire: true, Want: "polling receive"},
 			{Name: "redrawFull-set-after-send", Rule: "FULL-LOCK", File: "pkg/cli/loop.go", Old: "\tif full {\n\t\tlp.redrawFull = true\n\t}\n\tselect {\n\tcase lp.redrawCh <- struct{}{}:\n\tdefault:\n\t}\n}", New: "\tselect {\n\tcase lp.redrawCh <- struct{}{}:\n\tdefault:\n\t}\n\tif full {\n\t\tlp.redrawFull = true\n\t}\n}", Fire: true, Want: "Redraw", Quick: true},
+			{Name: "input-handed-to-a-goroutine", Rule: "INPUT-FIFO", File: "pkg/cli/loop.go", Old: "func (lp *loop) Input(ev event) {\n\tlp.inputCh <- ev\n}", New: "func (lp *loop) Input(ev event) {\n\tselect {\n\tcase lp.inputCh <- ev:\n\tdefault:\n\t\tgo func() { lp.inputCh <- ev }()\n\t}\n}", Fire: true, Want: "Input"},
+			{Name: "benign-input-send-in-select-with-no-default", Rule: "INPUT-FIFO", File: "pkg/cli/loop.go", Old: "func (lp *loop) Input(ev event) {\n\tlp.inputCh <- ev\n}", New: "func (lp *loop) Input(ev event) {\n\tselect {\n\tcase lp.inputCh <- ev:\n\t}\n}", Fire: false},
 			{Name: "redraw-unlocked-flag", Rule: "FULL-LOCK", File: "pkg/cli/loop.go", Old: "func (lp *loop) Redraw(full bool) {\n\tlp.redrawMutex.Lock()\n\tdefer lp.redrawMutex.Unlock()\n", New: "func (lp *loop) Redraw(full bool) {\n", Fire: true},
 			{Name: "blocking-send-in-redraw", Rule: "NONBLOCK", File: "pkg/cli/loop.go", Old: "\tselect {\n\tcase lp.redrawCh <- struct{}{}:\n\tdefault:\n\t}\n}\n\n// Input", New: "\tlp.redrawCh <- struct{}{}\n}\n\n// Input", Fire: true},
 			{Name: "unbuffered-return-channel", Rule: "NONBLOCK", File: "pkg/cli/loop.go", Old: "returnCh: make(chan loopReturn, 1),", New: "returnCh: make(chan loopReturn),", Fire: true},
@@ -114,6 +117,7 @@ func runC39(p *core.Program, r *core.Report) {
 	runLockset(p, r, "PTRVAR-LOCK", ptrVarSpec, p.FnsInPkg(pkgVars))
 	runRLockWrite(p, r, "RLOCK-WRITE")
 	runRMWAtomic(p, r, "RMW-ATOMIC", spec)
+	runForkShared(p, r, "FORK-SHARED")
 }
 
 func runC32(p *core.Program, r *core.Report) {
